@@ -79,7 +79,7 @@ def exn_answer(e):
     return [[1, EXN_CODES.get(type(e).__name__, 6)]]
 
 
-def guard(fn, enc, seconds=20):
+def guard(fn, enc, seconds=120):
     """run fn(); return (answer, raw).  answer uses the model's status encoding."""
     def on_alarm(signum, frame):
         raise Budget("time budget")
